@@ -6,7 +6,7 @@ import world as WD
 from rules import shared, c05
 
 
-def run(ctx, w):
+def _run(ctx, w):
     S = shared.screen(w)
     R = shared.roles(w)
     E = w.E
@@ -30,6 +30,7 @@ def run(ctx, w):
     ctx.floor("Y9", 100, "row primitive evaluations")
     from rules import c02
     c02.relayout_clears_wrap(ctx, w, S, R, "Y10")
+    shared.mode_arm_siblings(ctx, w, S, R, "Y11")
 
 
 def charset_rules(ctx, w):
@@ -162,6 +163,20 @@ def print_rules(ctx, w, S, R):
         ctx.check(t == want_cell, "Y2", shared.site_key(w, h, cs.point), "the cell written by %s is %s, expected %s" % (cs.callee, w.tstr(h, t), w.tstr(h, want_cell)), loc=w.site_loc(cs),
                   sample={"site": shared.site_key(w, h, cs.point), "cell": w.tstr(h, t)})
     ctx.floor("Y2", 3, "cell writes in the print handler")
+    # Y2t: every printable character ends up in a cell: every path writes one, and no branch looks at the character
+    ctx.rule("Y2t", "every path through the print handler writes a cell, and no branch of it depends on the character being printed (width, class, value)")
+    cw = {cs.point for cs in writes if [i for i, t in enumerate(w.facts.fns[cs.callee]["inputs"]) if t["s"] == "cell::Cell"]}
+    ctx.check(bool(cw) and b.every_path_to_return_hits((0, 0), cw, include_start=True), "Y2t", h + ":always",
+              "%s can return without writing the character into a cell: some printable characters are silently dropped from the screen (and from text())" % h, loc=w.fn_loc(h), sample={"cell_writes": len(cw)})
+    for blk in sorted(b.normal_blocks()):
+        t = b.term(blk)
+        if t["k"] != "switch":
+            continue
+        c = WD.strip_names(T.operand(t["discr"], (blk, b.n_stmts(blk))))
+        dep = ("load", ("arg2",)) in _subterms(c)
+        ctx.check(not dep, "Y2t", h + ":branch:" + shared.site_key(w, h, (blk, b.n_stmts(blk))), "%s branches on %s, which depends on the character being printed: where a character goes must not depend on which character it is" %
+                  (h, w.tstr(h, c)[:100]), loc=w.stmt_loc(h, (blk, b.n_stmts(blk))), sample={"condition": w.tstr(h, c)[:100]})
+    ctx.floor("Y2t", 3, "print paths / branches")
     # Cell::new stores what it is given, the accessors return it
     cn = "cell::Cell::new"
     if cn in w.bodies:
@@ -299,3 +314,19 @@ def flatten(t, acc=None):
 
 def norm(t):
     return shared.norm_term(t)
+
+
+def run(ctx, w):
+    _run(ctx, w)
+    # the commands of this property must first of all be DECODED as specified (selector values, parameter slots, finals)
+    from rules import c03
+    shared.embed(ctx, w, c03.dispatch_rules)
+
+
+def _subterms(t, acc=None):
+    acc = acc if acc is not None else set()
+    if isinstance(t, tuple):
+        acc.add(t)
+        for x in t:
+            _subterms(x, acc)
+    return acc
